@@ -942,12 +942,16 @@ func (r *Reconciler) applyValues(ctx context.Context, transaction *configapi.Tra
 			configv2.TargetType(transaction.ID.Target.Type),
 			configv2.TargetVersion(transaction.ID.Target.Version))
 		if !ok {
-			transaction.Status.Rollback.Apply.State = configapi.TransactionPhaseStatus_FAILED
-			transaction.Status.Rollback.Apply.Failure = &configapi.Failure{
+			apply := transaction.Status.Change.Apply
+			if transaction.Status.Phase == configapi.TransactionStatus_ROLLBACK {
+				apply = transaction.Status.Rollback.Apply
+			}
+			apply.State = configapi.TransactionPhaseStatus_FAILED
+			apply.Failure = &configapi.Failure{
 				Type:        configapi.Failure_INVALID,
 				Description: fmt.Sprintf("model plugin '%s/%s' not found", transaction.ID.Target.Type, transaction.ID.Target.Version),
 			}
-			transaction.Status.Rollback.Apply.End = now()
+			apply.End = now()
 			if err := r.updateTransactionStatus(ctx, transaction); err != nil {
 				return false, err
 			}
